@@ -51,6 +51,18 @@ def fmtInit (max : Nat) : FmtSt := { buffSize := min stackLimit max + 1, trunc :
 def formatText (msg : Bytes) (max : Nat) : Option (Bytes × Bool × Nat) :=
   fmtLoop msg max 3 (fmtInit max) 0
 
+/-- the code as found re-read the global maximum in every round (patches/C09-03 reads it once):
+`maxes` = the value seen by each round; result = (`text_len` dispatched, bytes really formatted
+into the buffer, truncated flag) -/
+def fmtLoopVar (L : Nat) : List Nat → FmtSt → Option (Nat × Nat × Bool)
+  | [], _ => none
+  | max :: rest, s =>
+    let written := min L (s.buffSize - 1)
+    let len := if s.trunc then max else L
+    if len < s.buffSize then some (len, written, s.trunc)
+    else if len ≤ max then fmtLoopVar L rest { s with buffSize := len + 1 }
+    else fmtLoopVar L rest { buffSize := max + 1, trunc := true }
+
 /-- the `LogPuts` path (with_args = 0): strlen, clamp -/
 def putsText (msg : Bytes) (max : Nat) : Bytes × Bool :=
   if msg.length > max then (msg.take max, true) else (msg, false)
